@@ -415,10 +415,16 @@ def main(tier, seed, args):
     if rep.extra.get('unexpected_height_writers') and not rep.violations:
         rep.inconclusive.append('height cell written outside update_height (%s) and no violating run found within the bounds'
                                 % rep.extra['unexpected_height_writers'])
+    if not rep.violations:
+        from .c04 import height_use_stage
+        height_use_stage(rep, PID, c)
     finish(rep, [c], './check C20 --tier ' + tier)
 
 def replay_cex(path):
     cex = json.load(open(path))
+    if cex.get('replay_kind') == 'manager' or 'script' in cex and 'steps' in cex.get('script', {}):
+        from . import scen_common
+        return scen_common.replay_cex(PID, path)
     nat = native_check(cex)
     print(json.dumps(nat, indent=1, default=str))
     if nat.get('reproduced'):
